@@ -4,7 +4,7 @@
    Statement language (impl_lookup, spec_lookup, ...): Image/ViewEq.v.  Witness images: Image/Witnesses.v. *)
 From Coq Require Import List NArith ZArith Bool String.
 From Scalibr Require Import Lib.SortSearch Image.PathTree Image.PathTreeProofs Image.Fill Image.Overlay
-  Image.ImageCases Image.ViewEq Image.Witnesses Image.FillProofs Image.Bounded Image.BoundedProofs.
+  Image.ImageCases Image.ViewEq Image.Witnesses Image.FillProofs Image.FoldProofs Image.Bounded Image.BoundedProofs.
 Import ListNotations.
 Open Scope Z_scope.
 
@@ -61,12 +61,17 @@ Print Assumptions pathtree_refines_map.
        26^3 three-layer images with <= 1 member per layer), checked inside Coq by vm_compute; the same
        up to directory permission bits / origin on the larger domain D_weak (implicit parents);
      - the structural lemmas below (all images, all sizes), which are the induction steps a general
-       proof needs: the fill touches each chain layer independently (fill_is_per_chain_layer), each
-       step is a map insert unless the path has a value or an ancestor hides it (fill_step_refines_map,
-       in_whiteout_dir_characterised), and whiteouts are never exposed (whiteouts_hidden).
-   Missing for the general theorem: the induction over layers (newest first) that turns these steps
-   into "view i (p) = newest member at p among layers <= i that no newer destructive member hides", and
-   the matching characterisation of the spec fold (oldest first). *)
+       proof needs: every view is a fold of guarded inserts and view k only receives nodes of layers
+       <= k (view_is_fold_of_fills), no fill replaces a value already there, i.e. the newest member
+       stays (fill_never_overwrites), the fill touches each chain layer independently
+       (fill_is_per_chain_layer), each step is a map insert unless the path has a value or an ancestor
+       hides it (fill_step_refines_map, in_whiteout_dir_characterised), and whiteouts are never
+       exposed (whiteouts_hidden).
+   Missing for the general theorem: (a) which fills one layer generates (the skip / implicit-parent
+   logic of fillChainLayersWithFilesFromTar as a function of the member list, under D), (b) from that,
+   "view i (p) = newest member at p among layers <= i that no newer destructive member hides", (c) the
+   matching characterisation of the spec fold (oldest first), (d) pruning with the default requirer
+   only removes whiteout nodes (under final_prune_safe), and requirer_only_removes_nonrequired. *)
 
 Theorem view_eq_overlay_on_D_bounded_partial :
   (forall l0 l1, In l0 old_layers -> In l1 new_layers ->
@@ -82,6 +87,23 @@ Print Assumptions view_eq_overlay_on_D_bounded_partial.
 Example bounded_families_meet_D :
   Nat.ltb 500 (fst (count_in_D layers3)) = true /\ Nat.ltb 5000 (snd (count_in_D layers3)) = true.
 Proof. exact bounded_counts. Qed.
+
+(* every image: each view (before the final pruning) is a fold of guarded inserts over the root-only
+   tree, and view k only receives nodes of layers <= k *)
+Theorem view_is_fold_of_fills : forall cfg im st,
+  load_unpruned cfg im = Some st ->
+  List.length (st_chains st) = List.length (init_slots im) /\
+  forall k, (k < List.length (init_slots im))%nat ->
+    exists ops, nth k (st_chains st) empty_trie = apply_ops ops (Node (Some (root_node k)) []) /\
+                from_layers_le k ops.
+Proof. exact view_is_fold_of_fills_lemma. Qed.
+Print Assumptions view_is_fold_of_fills.
+
+(* a fill never replaces a value already in the view: the newest layer's member stays *)
+Theorem fill_never_overwrites : forall ops t q v,
+  get_segs q t = Some v -> get_segs q (apply_ops ops t) = Some v.
+Proof. exact apply_ops_keeps. Qed.
+Print Assumptions fill_never_overwrites.
 
 Theorem fill_is_per_chain_layer : forall i vsegs n cs k,
   nth k (fill_from i vsegs n cs) empty_trie =
